@@ -274,6 +274,10 @@ func (cf *clientFormat) writePacketRTP(pkt *rtp.Packet, ntp time.Time) error {
 		maxPlainPacketSize -= srtpOverhead + len(cf.cm.srtpOutCtx.mki)
 	}
 
+	if maxPlainPacketSize < 0 {
+		return fmt.Errorf("MaxPacketSize is too small")
+	}
+
 	plain := make([]byte, maxPlainPacketSize)
 	n, err := pkt.MarshalTo(plain)
 	if err != nil {
